@@ -28,7 +28,14 @@ def norm(v):
     if isinstance(v, (list, tuple)):
         return [norm(x) for x in v]
     if isinstance(v, dict):
-        return {norm_key(k): norm(x) for k, x in v.items()}
+        d = {norm_key(k): norm(x) for k, x in v.items()}
+        if type(v) is not dict:
+            d["__dict_subclass__"] = type(v).__name__      # a Counter / OrderedDict / defaultdict is not a plain dict
+        return d
+    if isinstance(v, (set, frozenset)):
+        return {"__set__": sorted((norm(x) for x in v), key=repr)}
+    if type(v).__module__.startswith("molli.") and hasattr(v, "element") and hasattr(v, "atype"):
+        return {"__atom__": int(v.element), "label": v.label}       # a reference to an atom kept in an attribute
     return repr(v)
 
 
